@@ -102,6 +102,7 @@ func c13(c *evid.Ctx) {
 	c13sequential(c)
 	c13concurrent(c)
 	c13server(c)
+	c13faults(c)
 	c13expiry(c)
 }
 
